@@ -527,7 +527,11 @@ ASM_BODIES = ["  mov eax, 1\n   @@loop:  dec   ecx\n  jnz @@loop\n", "mov   A,B\
               # conditional directives written on an instruction's line belong to that line (F33): at its end, in its middle, around it
               "  PUSH  {$IFDEF CPUX64}   rbx   {$ENDIF}\n  ret\n", "  MOV {$IFDEF CPUX64} rax {$ELSE} eax {$ENDIF}, 1\n",
               "  mov eax, {$IFDEF A} 1 {$ELSE} 2 {$ENDIF}\n  {$IFDEF X} mov ebx, 2 {$ENDIF}\n  ret\n",
-              "  {$IFNDEF PUREPASCAL}  xor eax,  eax {$ELSE} nop {$ENDIF}\n", "  db   'abc' , \"def\",0FFh\n  mov  al,'x'\n  or al,  101b\n", "  push {$IF Defined(A)} eax {$ELSEIF Defined(B)} ebx {$ELSE} ecx {$IFEND}; pop  edx\n"]
+              "  {$IFNDEF PUREPASCAL}  xor eax,  eax {$ELSE} nop {$ENDIF}\n",
+              # runs of adjacent directives at the start, the end and in the middle of an instruction line
+              "  {$IFDEF CPUX64}{$IFDEF MSWINDOWS}   mov   rax,  [rcx]   {$ENDIF}{$ENDIF}\n  ret\n",
+              "  mov  eax, 1 {$IFDEF A} {$IFDEF B}{$ENDIF}  {$ENDIF}\n", "  {$IFDEF A}{$ELSE}{$ENDIF} nop\n",
+              "  push {$IFDEF A}{$IFDEF B} eax {$ELSE}  ebx {$ENDIF}{$ELSE}{$IFDEF C}ecx{$ENDIF}{$ENDIF}\n  pop  edx\n", "  db   'abc' , \"def\",0FFh\n  mov  al,'x'\n  or al,  101b\n", "  push {$IF Defined(A)} eax {$ELSEIF Defined(B)} ebx {$ELSE} ecx {$IFEND}; pop  edx\n"]
 
 
 def run_c07(ctx):
